@@ -684,7 +684,10 @@ fn mutate_once(rng: &mut StdRng, s: &mut String, other: &str) -> &'static str {
                 match rng.gen_range(0..6) {
                     0 => s.insert_str(t.e, pick(rng, &["u8", "u16", "u32", "u64", "u256", "i8", "u7", "_", "x", "e9", "usize", "é", "u", "u6\u{0301}4"])),
                     1 => s.insert_str(t.s, pick(rng, &["0x", "0b", "0o", "0", "-", "0x0x", "_"])),
-                    2 => s.insert_str(rng.gen_range(t.s..=t.e), pick(rng, &[".", "_", "__", "..", "e", "x"])),
+                    2 => {
+                        let at = char_boundary_at_or_before(s, rng.gen_range(t.s..=t.e));
+                        s.insert_str(at, pick(rng, &[".", "_", "__", "..", "e", "x"]));
+                    }
                     3 => {
                         let n = rng.gen_range(20..=100);
                         let d: String = (0..n).map(|_| (b'0' + rng.gen_range(0..10u8)) as char).collect();
@@ -849,6 +852,16 @@ struct Eval<'a> {
 impl Eval<'_> {
     fn violation(&mut self, sig: String, desc: String) {
         self.failed = true;
+        // failures of a confirmed known mechanism are dense on the unchanged tree: only the first
+        // few per worker are recorded in full so that the per-shard cap stays free for anything new
+        if sig.starts_with("lexer-span-byte-arithmetic[") {
+            self.res.count("failures_explained_by_known_defect");
+            let key = format!("recorded_{sig}");
+            if self.res.counters.get(&key).copied().unwrap_or(0) >= 4 {
+                return;
+            }
+            self.res.count(&key);
+        }
         let r = self.replay.clone();
         self.res.violation(sig, desc, r);
     }
@@ -1446,7 +1459,10 @@ fn on_big_stack<T: Send + 'static>(f: impl FnOnce() -> T + Send + 'static) -> Re
         .spawn(f)
         .map_err(|e| format!("cannot spawn big-stack thread: {e}"))?
         .join()
-        .map_err(|_| "harness thread panicked outside of the monitored calls".to_string())
+        .map_err(|p| {
+            let msg = p.downcast_ref::<&str>().map(|s| s.to_string()).or_else(|| p.downcast_ref::<String>().cloned()).unwrap_or_default();
+            format!("harness thread panicked outside of the monitored calls: {msg}")
+        })
 }
 
 /// c16-worker <seed> <shard> <start_index> <budget_ms> <out> <journal>
@@ -1471,10 +1487,17 @@ fn worker_main(a: &[String]) -> i32 {
         let partial = out2.with_extension("partial");
         while start.elapsed() < budget {
             let _ = journal.write_at(&index.to_le_bytes(), 0);
-            let c = gen_case(seed, shard, index, &mut corpus);
-            match c.skipped {
-                Some(why) => res.count(&format!("skipped_{why}")),
-                None => run_case(&chk, &mut corpus, &c, shard, index, &mut res),
+            // a panic of the generator is a harness bug: the case is dropped and made visible, it
+            // is never attributed to the parser (the parser is not even called)
+            match std::panic::catch_unwind(AssertUnwindSafe(|| gen_case(seed, shard, index, &mut corpus))) {
+                Ok(c) => match c.skipped {
+                    Some(why) => res.count(&format!("skipped_{why}")),
+                    None => run_case(&chk, &mut corpus, &c, shard, index, &mut res),
+                },
+                Err(_) => {
+                    res.count("harness_generator_faults");
+                    res.inconclusive(format!("the mutation code of the harness panicked for case index {index} of shard {shard} (seed {seed}); case dropped"));
+                }
             }
             index += 1;
             if last_partial.elapsed() > Duration::from_secs(5) {
